@@ -29,6 +29,7 @@ RULE = (
     ">= 2 keys; distinct = distinct (dimension, value or key class, serde, verbs, delivery)"
 )
 H1 = stacks.H1
+STACK_NAMES = {"client": "Client", "pooled": "PooledClient", "hash1": "HashClient([h1])"}
 STORES = ("set", "add", "replace", "cas", "set_many")
 FETCHES = ("get", "gets", "gat", "gats", "gat0", "gats0", "get_many", "gets_many")  # gat0/gats0: expire left at its default
 
@@ -129,8 +130,38 @@ class MyBytes(bytes):
     pass
 
 
+ACTIVE = [None]  # the serde of the client whose store call is running
+
+
+class Reentrant:
+    """A picklable value whose __reduce__ serializes something else through the serde that is pickling it."""
+
+    def __init__(self, tag=None):
+        self.tag = tag
+
+    def __eq__(self, other):
+        return type(other) is Reentrant and other.tag == self.tag
+
+    def __hash__(self):
+        return hash(self.tag)
+
+    def __repr__(self):
+        return f"Reentrant({self.tag!r})"
+
+    def __reduce__(self):
+        s = ACTIVE[0]
+        if s is not None:
+            ACTIVE[0] = None
+            try:
+                s.serialize(b"nested", ["inner", 1, b"x" * 50])
+            finally:
+                ACTIVE[0] = s
+        return (Reentrant, (self.tag,))
+
+
 def object_values():
-    leaves = [None, True, False, 0, 1, -1, 2**70, -(2**70), 1.5, "", "text", "é\r\n", b"", b"\r\n", b"x" * 500, "y" * 500]
+    leaves = [None, True, False, 0, 1, -1, 2**70, -(2**70), 1.5, "", "text", "é\r\n", b"", b"\r\n", b"x" * 500, "y" * 500,
+              "\ufeffbom first", "\ufeff", "a\u0300", Reentrant("r")]
     out = list(leaves)
     out += [[], (), {}, set(), [0], (False,), {"k": None}, {1, 2}, [b"", ""], {"a": [1, (2, "é")], "b": b"\xff"},
             ("t", 1, None), [incompressible(450)], frozenset([1]), 10**30,
@@ -165,6 +196,7 @@ def round_trip(key, value, serde, store, fetch, delivery, prefix=b"", encoding="
     c = Client(H1, socket_module=net.module(), key_prefix=prefix, encoding=encoding, allow_unicode_keys=uni,
                default_noreply=False, **kw)
     net.call = 1
+    ACTIVE[0] = serde if hasattr(serde, "serialize") else None
     try:
         if store == "set":
             ok = c.set(key, value)
@@ -201,7 +233,9 @@ def round_trip(key, value, serde, store, fetch, delivery, prefix=b"", encoding="
             d = c.gets_many(["absent", key])
             r = d.get(key, ("<MISSING>",))[0]
     except Exception as e:
+        ACTIVE[0] = None
         return ("exc", f"{type(e).__name__}: {e}")
+    ACTIVE[0] = None
     wire_ok = True
     srv = net.servers[("tcp",) + H1]
     kb = key.encode("utf8") if isinstance(key, str) else key
@@ -298,7 +332,8 @@ def collections_of(keys):
 
 
 def _w_keys(job, chk):
-    prefix, uni, tier = job
+    prefix, uni, tier = job[:3]
+    stack = job[3] if len(job) > 3 else "client"
     universe = key_universe(uni, prefix)
     subsets = []
     for n in (1, 2, 3):
@@ -317,7 +352,7 @@ def _w_keys(job, chk):
             for cname, factory in collections_of(keys):
                 for dl in (("whole", "segment") if tier == "quick" else ("whole", "segment", "byte")):
                     net = stacks.new_net(None, servers=(H1,), delivery=dl)
-                    c = Client(H1, socket_module=net.module(), key_prefix=prefix, allow_unicode_keys=uni, default_noreply=False)
+                    c = stacks.build(stack, net, key_prefix=prefix, allow_unicode_keys=uni, default_noreply=False)
                     vals = {}
                     try:
                         for k in present:
@@ -330,7 +365,7 @@ def _w_keys(job, chk):
                         res = ("exc", f"{type(e).__name__}: {e}")
                     chk.add()
                     if len(keys) >= 2:
-                        chk.outcome(("keys", len(prefix), uni, fetch, cname, dl, tuple(map(repr, keys)) if len(keys) <= 4 else len(keys)))
+                        chk.outcome(("keys", stack, len(prefix), uni, fetch, cname, dl, tuple(map(repr, keys)) if len(keys) <= 4 else len(keys)))
                     bad = None
                     if res[0] == "exc":
                         bad = ("multi-fetch-raises", res[1])
@@ -355,12 +390,12 @@ def _w_keys(job, chk):
                                 bad = ("prefix-not-on-wire", f"server holds {sorted(srv.items)[:4]}, expected {prefix + kb!r}")
                     if bad:
                         rep = "repeated" if len(set(keys)) != len(keys) else "distinct"
-                        chk.violation(f"{bad[0]}|{fetch}|{cname}|{rep}|{dl}",
-                                      f"Client(key_prefix={prefix[:10]!r}[{len(prefix)}], allow_unicode_keys={uni}), delivery {dl}: "
+                        chk.violation(f"{bad[0]}|{fetch}|{cname}|{rep}|{dl}" + ("" if stack == "client" else f"|{stack}"),
+                                      f"{STACK_NAMES[stack]}(key_prefix={prefix[:10]!r}[{len(prefix)}], allow_unicode_keys={uni}), delivery {dl}: "
                                       f"{fetch}({cname} of {short(list(keys), 120)}) with {len(present)} present: {bad[1]}",
-                                      {"dim": "keys", "prefix_hex": prefix.hex(), "unicode": uni, "tier": tier, "fetch": fetch,
+                                      {"dim": "keys", "stack": stack, "prefix_hex": prefix.hex(), "unicode": uni, "tier": tier, "fetch": fetch,
                                        "collection": cname, "delivery": dl, "keys": [repr(k) for k in keys]})
-    if prefix == b"ns:" and uni:
+    if prefix == b"ns:" and uni and stack == "client":
         chk.sample({"dim": "keys", "prefix": "ns:", "keys": [repr(k) for k in universe[:4]], "collection": "generator", "fetch": "gets_many"})
 
 
@@ -370,6 +405,9 @@ def run(chk):
                        "one call never mixes the str and the bytes spelling of the same key"]
     jobs = [("values", (s, chk.tier, part)) for s, _ in serdes(chk.tier) for part in range(4)]
     jobs += [("keys", (prefix, uni, chk.tier)) for prefix in (b"", b"ns:", b"p" * 200) for uni in (False, True)]
+    # the same key sets and collection types through the classes that wrap a Client (a pool, a one-server HashClient)
+    jobs += [("keys", (prefix, uni, chk.tier, stack)) for stack in ("pooled", "hash1")
+             for prefix, uni in ((b"", False), (b"ns:", True))]
     runner.parallel(chk, _w_all, jobs)
 
 
@@ -385,6 +423,7 @@ def replay(detail):
             _w_values((detail["serde"], detail.get("tier", "quick"), part), tmp)
         keep = [v["what"] for s, v in tmp.violations.items() if f"|{detail['serde']}|{detail['store']}->{detail['fetch']}|" in s]
     else:
-        _w_keys((bytes.fromhex(detail["prefix_hex"]), detail["unicode"], detail.get("tier", "quick")), tmp)
+        _w_keys((bytes.fromhex(detail["prefix_hex"]), detail["unicode"], detail.get("tier", "quick"),
+                 detail.get("stack", "client")), tmp)
         keep = [v["what"] for s, v in tmp.violations.items() if f"|{detail['fetch']}|{detail['collection']}|" in s]
     return keep
